@@ -3,7 +3,7 @@ import Ggql.Model.Coerce
 namespace Ggql.Pinned
 open Ggql.Coerce
 def coerceInInt : Table :=
-  { arms := [(.f64, .convCheckedKeep .i32), (.i16, .conv .i32), (.i32, .asIs), (.i64, .conv .i32), (.i8, .conv .i32), (.int, .conv .i32), (.nil, .asIs), (.u16, .conv .i32), (.u32, .conv .i32), (.u64, .conv .i32), (.u8, .conv .i32), (.uint, .conv .i32)],
+  { arms := [(.f64, .convCheckedKeep .i32), (.i16, .conv .i32), (.i32, .asIs), (.i64, .convCheckedKeep .i32), (.i8, .conv .i32), (.int, .convCheckedKeep .i32), (.nil, .asIs), (.u16, .conv .i32), (.u32, .convCheckedKeep .i32), (.u64, .convCheckedKeep .i32), (.u8, .conv .i32), (.uint, .convCheckedKeep .i32)],
     dflt := .failNil, formatTime := false }
 def coerceOutInt : Table :=
   { arms := [(.f32, .conv .i32), (.f64, .conv .i32), (.i16, .conv .i32), (.i32, .asIs), (.i64, .conv .i32), (.i8, .conv .i32), (.int, .conv .i32), (.nil, .asIs), (.str, .parseIntKeep .i32), (.u16, .conv .i32), (.u32, .conv .i32), (.u64, .conv .i32), (.u8, .conv .i32), (.uint, .conv .i32)],
